@@ -1,5 +1,6 @@
 import Driver.Util
 import SonicModel.Impl.Simd
+import SonicModel.Impl.Block
 namespace Driver
 open Sonic Sonic.Simd
 
@@ -16,6 +17,34 @@ def c17 (args : List String) : String :=
     | none => "bad-args"
   | ["ns", h] => match unhex h with
     | some b => "r=" ++ hexNat17 (nonspaceBits b.toList)
+    | none => "bad-args"
+  | ["esc", hp, hb] => match parseHexNat hp, parseHexNat hb with
+    | some p, some b =>
+      let r := Sonic.Block.getEscaped (BitVec.ofNat 64 p) (BitVec.ofNat 64 b)
+      s!"r={hexNat17 r.1.toNat} c={hexNat17 r.2.toNat}"
+    | _, _ => "bad-args"
+  | ["sb", hblock, hpi, hpe] => match unhex hblock, parseHexNat hpi, parseHexNat hpe with
+    | some blk, some pi, some pe =>
+      let b := blk.toList.take 64
+      let r := Sonic.Block.stringBits (Sonic.Block.toMask (· == 92) b) (Sonic.Block.toMask (· == 34) b) (BitVec.ofNat 64 pi) (BitVec.ofNat 64 pe)
+      s!"r={hexNat17 r.1.toNat} pi={hexNat17 r.2.1.toNat} pe={hexNat17 r.2.2.toNat}"
+    | _, _, _ => "bad-args"
+  | ["cb", ht, kind] => match unhex ht with
+    | some t =>
+      let (left, right) : UInt8 × UInt8 := if kind == "o" then (123, 125) else (91, 93)
+      -- the block loop with the final state, as the harness drives it
+      let rec go (fuel : Nat) (data : List UInt8) (s : Sonic.Block.St) (eaten : Nat) : String :=
+        match fuel with
+        | 0 => "fuel"
+        | fuel + 1 =>
+          let whole := data.length ≥ 64
+          let blk := if whole then data.take 64 else data ++ List.replicate (64 - data.length) 0
+          match Sonic.Block.containerBlock blk s left right with
+          | (some n, s') => s!"r={eaten + n} l={s'.l} rr={s'.r}"
+          | (none, s') =>
+            if whole then go fuel (data.drop 64) s' (eaten + 64)
+            else s!"r=none l={s'.l} rr={s'.r} pi={hexNat17 s'.prevIn.toNat} pe={hexNat17 s'.prevEsc.toNat}"
+      go (t.size / 64 + 2) t.toList Sonic.Block.St.init 0
     | none => "bad-args"
   | ["d2i", a, need] => match unhex a, need.toNat? with
     | some a, some need =>
